@@ -288,7 +288,8 @@ class Threading:
                     if op == "/" and b.p.is_const() and b.p.get((), 0) != 0:
                         d = b.p[()]
                         # exact only when the dividend is a multiple: obj_sz is a multiple of 8 (asserted)
-                        if all("O" in kk for kk in a.p) and d in (8, 4, 2, 1):
+                        # obj_sz is asserted to be a multiple of 8, incr_sz is a whole number of pages
+                        if all(("O" in kk or "S" in kk) for kk in a.p) and d in (8, 4, 2, 1):
                             return Val("int", a.p.scale(Fraction(1) / d))
                         if a.p.is_const() and (a.p.get((), 0) / d).denominator == 1:
                             return Val("int", a.p.scale(Fraction(1) / d))
